@@ -146,14 +146,28 @@ fn unify_vec(a1: &[TypeNodeId], a2: &[TypeNodeId]) -> Result<Relation, Vec<Error
         .map(|(a1, a2)| unify_types(*a1, *a2))
         .partition_result();
     let errs: Vec<_> = errs.into_iter().flatten().collect();
-
     let res_relation = if res.iter().all(|r| *r != Relation::Subtype) {
         Relation::Supertype
     } else if res.iter().all(|r| *r != Relation::Supertype) {
         Relation::Subtype
     } else {
         //TODO more specific error report, if the tuple contains both subtype and supertype
-        return Err(errs);
+        // Every pair unified on its own, but in opposite directions: report the first pair that goes
+        // against the direction of the first one (an empty error list would be taken for success by
+        // callers that look at the first error)
+        if !errs.is_empty() {
+            return Err(errs);
+        }
+        let first = res.iter().find(|r| **r != Relation::Identical).copied();
+        let conflict = res
+            .iter()
+            .position(|r| *r != Relation::Identical && Some(*r) != first)
+            .unwrap_or(0);
+        let (t1, t2) = (a1[conflict], a2[conflict]);
+        return Err(vec![Error::TypeMismatch {
+            left: (t1, best_span(t1, t2)),
+            right: (t2, best_span(t2, t1)),
+        }]);
     };
     Ok(res_relation)
 }
